@@ -1250,6 +1250,17 @@ def constpresent(repo, templates):
                 res.add(f"{hg.rel}|{f.qualname}|{sorted(picked)[0]}", f"{f.qualname} selects {sorted(picked)} (has_x() hard-coded to true) under "
                         f"`{ast.unparse(n.test)[:100]}`, which does not require the existence condition to be the constant true: "
                         "a field under `if false:` reports has_x() == true and is printed in text output", hg.rel, n.lineno, f.qualname)
+            # the same templates hard-code `Ok() { return true; }`: they cannot carry a [requires], so the selection has
+            # to exclude fields that have one (a conjunct `not ...get_attribute(<field>.attribute, "requires")`)
+            okhard = {nm for nm in picked if re.search(r"\bOk\s*\(\s*\)\s*(?:const\s*)?\{\s*return\s+true\s*;", " ".join(templates.templates[nm]["text"].split()))}
+            if okhard:
+                res.instances += 1
+                excl = any(isinstance(c, ast.UnaryOp) and isinstance(c.op, ast.Not) and "get_attribute" in ast.unparse(c.operand)
+                           and "requires" in ast.unparse(c.operand).lower() for c in conj)
+                if not excl:
+                    res.add(f"{hg.rel}|{f.qualname}|{sorted(okhard)[0]}|requires", f"{f.qualname} selects {sorted(okhard)} (Ok() hard-coded to true) "
+                            "for fields that may carry [requires]: `let version = 5` / `[requires: this == 6]` is accepted and both the "
+                            "field and the structure report Ok()", hg.rel, n.lineno, f.qualname)
     if res.instances < 1 and not res.findings:
         raise AnalysisError("header_generator: the selection of the constant-virtual-field templates was not found")
     res.analysed = [hg.rel, TEMPLATES]
